@@ -136,6 +136,10 @@ class TypeChecker:
             ival.expressions = new_expressions
             return ival
         else:
+            if isinstance(ival, (ast.ExpressionList, ast.NamedExpressionList)):
+                raise SemanticError(
+                    f"Cannot initialize {typ} with a list of values", ival.loc
+                )
             self.check_expr(ival)
             return self.do_coerce(ival, typ)
 
